@@ -154,6 +154,21 @@ Section Model.
         :: end_planes base height).
 
   (* ---- ELL ---- *)
+  (* the part common to both parameterisations: spheroid with centre [center],
+     major semi-axis vector [va], squared minor radius [min2] *)
+  Definition ell_quadric (center va : vec) (min2 : T) : res (list entry) :=
+    do ua <- renorm S va;
+    let '(ua0, ua1, ua2) := ua in
+    let far (x : T) : bool := sltb S (c1em3 S) (sabs S (1 - sabs S x)) in
+    do ub <- (if far ua0 then renorm S (vdiff S (1, 0, 0) (rescale S ua0 ua))
+              else if far ua1 then renorm S (vdiff S (0, 1, 0) (rescale S ua1 ua))
+              else renorm S (vdiff S (0, 0, 1) (rescale S ua2 ua)));
+    let uc := vect S ua ub in
+    do ia <- divr S 1 (mag2 S va);
+    do ib <- divr S 1 min2;
+    Ok [ (TGQ, transformation_quad S ([ia; ib; ib] ++ zeros 6 ++ [m1])
+                                   center ua ub uc, 1%Z) ].
+
   Definition ell (p : list T) : res (list entry) :=
     if negb (len_is p 7) then Err EMacroBody else
     let last := nth 6 p 0 in
@@ -166,17 +181,7 @@ Section Model.
                  Ok (center, va, last * last - d * d)
                else Ok (v3 p 0, v3 p 3, last * last));
     let '(center, va, min2) := cab in
-    do ua <- renorm S va;
-    let '(ua0, ua1, ua2) := ua in
-    let far (x : T) : bool := sltb S (c1em3 S) (sabs S (1 - sabs S x)) in
-    do ub <- (if far ua0 then renorm S (vdiff S (1, 0, 0) (rescale S ua0 ua))
-              else if far ua1 then renorm S (vdiff S (0, 1, 0) (rescale S ua1 ua))
-              else renorm S (vdiff S (0, 0, 1) (rescale S ua2 ua)));
-    let uc := vect S ua ub in
-    do ia <- divr S 1 (mag2 S va);
-    do ib <- divr S 1 min2;
-    Ok [ (TGQ, transformation_quad S ([ia; ib; ib] ++ zeros 6 ++ [m1])
-                                   center ua ub uc, 1%Z) ].
+    ell_quadric center va min2.
 
   (* ---- WED ---- *)
   Definition wed (p : list T) : res (list entry) :=
